@@ -53,6 +53,35 @@ static int add_integer(yaml_document_t *document, int value)
 }
 
 /*
+ * add_formatted: add a printf-formatted scalar to the yaml_document_t
+ *   @document: yaml document
+ *   @format: printf format
+ *
+ *   The length of the text depends on the precision the user asked
+ *   for, so it's formatted into allocated memory.
+ */
+static int add_formatted(yaml_document_t *document, const char *format, ...)
+{
+    va_list ap;
+    char *buf = NULL;
+    int tag;
+
+    va_start(ap, format);
+    if (vasprintf(&buf, format, ap) == -1) {
+	va_end(ap);
+	return -1;
+    }
+    va_end(ap);
+    tag = yaml_document_add_scalar(document, NULL,
+	    (yaml_char_t *)buf, strlen(buf), YAML_ANY_SCALAR_STYLE);
+    free((void *)buf);
+    if (tag == 0) {
+	return -1;
+    }
+    return tag;
+}
+
+/*
  * add_double: add double scalar to the yaml_document_t
  *   @document: yaml document
  *   @value: real value
@@ -60,17 +89,8 @@ static int add_integer(yaml_document_t *document, int value)
  */
 static int add_double(yaml_document_t *document, double value, int precision)
 {
-    char buf[3 * sizeof(double) + 10];
-    int tag;
-
     assert(precision >= 1);
-    (void)sprintf(buf, "%.*e", precision - 1, value);
-    if ((tag = yaml_document_add_scalar(document, NULL,
-		    (yaml_char_t *)buf, strlen(buf),
-		    YAML_ANY_SCALAR_STYLE)) == 0) {
-	return -1;
-    }
-    return tag;
+    return add_formatted(document, "%.*e", precision - 1, value);
 }
 
 /*
@@ -84,23 +104,14 @@ static int add_complex(yaml_document_t *document, double complex value,
 {
     double real = creal(value);
     double imag = cimag(value);
-    char buf[3 * sizeof(double complex) + 20];
-    int tag;
 
     assert(precision >= 1);
     if (precision == VNACAL_MAX_PRECISION) {
-	(void)sprintf(buf, "%+a %+aj", real, imag);
-    } else {
-	(void)sprintf(buf, "%+.*e %+.*ej",
-		precision - 1, real,
-		precision - 1, imag);
+	return add_formatted(document, "%+a %+aj", real, imag);
     }
-    if ((tag = yaml_document_add_scalar(document, NULL,
-		    (yaml_char_t *)buf, strlen(buf),
-		    YAML_ANY_SCALAR_STYLE)) == 0) {
-	return -1;
-    }
-    return tag;
+    return add_formatted(document, "%+.*e %+.*ej",
+	    precision - 1, real,
+	    precision - 1, imag);
 }
 
 /*
